@@ -641,6 +641,9 @@ func fixedC21Cases() []namedC21 {
 		return namedC21{name, c}
 	}
 	return []namedC21{
+		// Stop() while a roll-backward / roll-forward callback is running (seeded C21-a)
+		mk("stop-during-rollback-callback", c21Case{Limit: 2, Raw: true, StopAfter: 2, CbDelayUs: []int{3000}, History: []csItem{f(2), b(0), f(3), b(0), f(4)}}),
+		mk("stop-during-rollforward-callback", c21Case{NtN: true, Limit: 5, StopAfter: 3, CbDelayUs: []int{3000}, History: []csItem{b(0), f(3), f(4), b(0), f(5), f(6)}}),
 		// special rollback points / tips, AwaitReply before a RollBackward, rollback right after a roll-forward
 		mk("special-points:ntc", c21Case{Limit: 2, Raw: true, History: []csItem{aw(f(2)), aw(b(1)), f(3), orig, tipSpec(aw(b(4)), 3), tipSpec(f(0), 1), b(2), tipSpec(b(3), 2), f(9)}}),
 		mk("special-points:ntn", c21Case{NtN: true, Limit: 5, Intersect: 2, IsectSpec: true, History: []csItem{f(4), aw(b(1)), f(5), aw(b(2)), b(3), tipSpec(f(6), 2), b(4), tipSpec(orig, 3), f(7)}}),
